@@ -125,7 +125,7 @@ def plan(tier):
     q = tier == "quick"
     cfgs = []
     for tp in TPS:
-        for part in ("core", "strict", "mixed", "trust", "crlv", "invalid", "nocert"):
+        for part in ("core", "strict", "mixed", "trust", "crlv", "invalid", "nocert", "ovr"):
             cfgs.append(("tp=%s,part=%s" % (tp, part), 0))
     if not q:
         for tp in TPS:
